@@ -94,7 +94,13 @@ def run(ctx):
                 if op == "new":
                     result = Tdf.new(target)
                 elif op in ("copy", "copy-then-mutate"):
-                    result = Tdf(src).copy(target)
+                    src_name = src
+                    if rng.random() < 0.3:
+                        # the original is NAMED through a symbolic link ("latest.tdf" -> the real file)
+                        src_name = os.path.join(d, "latest.tdf")
+                        os.symlink(src, src_name)
+                        rep["source_named_through_symlink"] = True
+                    result = Tdf(src_name).copy(target)
                 else:
                     with Tdf(target) as t:
                         result = len(t.entries)
@@ -124,7 +130,9 @@ def run(ctx):
                     if not okk:
                         ctx.fail("Tdf.new did not produce the well-formed empty container (signature, version 1, 14 unused slots at 4096, length 4096)", rep, ident="new file malformed")
             if kind == "absent" and op in ("copy", "copy-then-mutate"):
-                if got != "ok" or after != src_data:
+                if got == "ok" and os.path.islink(target):
+                    ctx.fail("the copy is a symbolic link to the original, not a file of its own (mutating either changes both)", rep, ident="copy is a link")
+                elif got != "ok" or after != src_data:
                     ctx.fail("copy to a free path is not byte-identical to the original", rep, ident="copy not identical")
                 elif op == "copy-then-mutate":
                     # mutate one of the two, the other must keep its bytes
